@@ -1709,3 +1709,23 @@ Proof.
     destruct (run_pass_ty_sound H k o p t t1 W E1) as [W1 W2].
     eapply wider_trans; [exact W1 | apply IH; assumption].
 Qed.
+
+Lemma rankedb_ranked : forall H, rankedb H = true -> ranked H.
+Proof.
+  intros H R d s Hin. unfold rankedb in R. induction H as [|[k ss] r IH]; simpl in *; [contradiction|].
+  apply andb_true_iff in R. destruct R as [R1 R2].
+  destruct (Nat.eqb k d) eqn:E.
+  - apply Nat.eqb_eq in E. subst k. rewrite forallb_forall in R1. apply Nat.ltb_lt. apply R1. assumption.
+  - apply IH; assumption.
+Qed.
+
+Lemma passes_ok : pipeline_ok true passes = true.
+Proof. vm_compute. reflexivity. Qed.
+
+Lemma optimize_widens_thm : forall k o Hd u u',
+  ranked (hier_of u ++ Hd) -> wf_unit k u -> (o_remove_mutable o = true -> u_classes u = []) ->
+  opt o Hd u = Some u' -> unit_wider (hier_of u ++ Hd) u u'.
+Proof. intros k o Hd u u'. apply optimize_widens_lemma. exact passes_ok. Qed.
+
+Lemma absorb_mutable_widens_lemma : forall H p, param_wider H p (absorb_param p).
+Proof. exact absorb_param_wider. Qed.
